@@ -290,11 +290,40 @@ def rhs_arity(r):
     return {"bern": 2, "cat": len(d[1]) if d[0] == "cat" else 1, "unif": (d[2] - d[1] + 1) if d[0] == "unif" else 1}.get(d[0], 1)
 
 
+def nonlinear_expr(e):
+    if e[0] == "pow":
+        return e[2] >= 2 and bool(expr_vars(e[1], set())) or nonlinear_expr(e[1])
+    if e[0] == "mul":
+        return (bool(expr_vars(e[1], set())) and bool(expr_vars(e[2], set()))) or nonlinear_expr(e[1]) or nonlinear_expr(e[2])
+    if e[0] in ("add", "sub"):
+        return nonlinear_expr(e[1]) or nonlinear_expr(e[2])
+    if e[0] == "neg":
+        return nonlinear_expr(e[1])
+    return False
+
+
+def nonlinear_prog(stmts):
+    for s in stmts:
+        if s[0] == "assign":
+            if s[2][0] == "choice" and any(nonlinear_expr(e) for _, e in s[2][1]):
+                return True
+        elif s[0] == "simult":
+            if any(r[0] == "choice" and any(nonlinear_expr(e) for _, e in r[1]) for _, r in s[1]):
+                return True
+        elif any(nonlinear_prog(b) for _, b in s[1]) or (s[2] and nonlinear_prog(s[2])):
+            return True
+    return False
+
+
 def oracle_depth(p, nmax, budget=300):
+    """depth of the path enumeration: the number of paths is b**n, and with non-linear updates the
+    size of the numbers doubles with every iteration"""
     b = branching(p["body"])
     n = nmax
     while n > 3 and b ** n > budget:
         n -= 1
+    if b >= 2 and nonlinear_prog(p["body"]):
+        n = min(n, 6)
     return n
 
 
